@@ -196,17 +196,39 @@ type zzStep struct {
 	ready   []fnv1.Ready
 	fatal   bool
 	warning bool
+	normal  bool
 	err     bool
 	xrReady fnv1.Ready
 	conds   []*fnv1.Condition
+	// reqNames[k] is the name the step's k-th call asks an extra resource
+	// for (by name); after the list is exhausted the last one is repeated.
+	reqNames []string
+	// context value the step writes
+	ctxValue string
 }
 
-// zzRunner is the function runner: it answers each step with its scripted
-// response and records the requests it received.
+type zzCall struct {
+	name string
+	step int
+	nth  int // n-th call of this step
+	req  *fnv1.RunFunctionRequest
+	// snapshots taken at call time (the request object is reused by callers)
+	observed    *fnv1.State
+	desired     *fnv1.State
+	context     *structpb.Struct
+	extraKeys   []string
+	extraNames  []string // metadata.name of the first item per key ("" if nil / empty)
+	extraCounts []int
+	rsp         *fnv1.RunFunctionResponse
+}
+
+// zzRunner is the function runner: it answers each call with the scripted
+// response of the step the function name belongs to ("fn<i>") and records
+// what it was sent.
 type zzRunner struct {
-	steps []zzStep
-	calls []*fnv1.RunFunctionRequest
-	names []string
+	steps     []zzStep
+	calls     []zzCall
+	stepCalls []int
 }
 
 func zzDesiredResource(resName string) *fnv1.Resource {
@@ -222,14 +244,33 @@ func zzDesiredResource(resName string) *fnv1.Resource {
 }
 
 func (r *zzRunner) RunFunction(_ context.Context, name string, req *fnv1.RunFunctionRequest) (*fnv1.RunFunctionResponse, error) {
-	k := len(r.calls)
-	r.calls = append(r.calls, req)
-	r.names = append(r.names, name)
-	st := r.steps[k%len(r.steps)]
+	idx := int(name[len(name)-1] - '0')
+	for len(r.stepCalls) <= idx {
+		r.stepCalls = append(r.stepCalls, 0)
+	}
+	k := r.stepCalls[idx]
+	r.stepCalls[idx]++
+	st := r.steps[idx]
+	call := zzCall{name: name, step: idx, nth: k, req: req, observed: req.GetObserved(), desired: req.GetDesired(), context: req.GetContext()}
+	for key, rs := range req.GetExtraResources() {
+		call.extraKeys = append(call.extraKeys, key)
+		call.extraCounts = append(call.extraCounts, len(rs.GetItems()))
+		nm := ""
+		if len(rs.GetItems()) > 0 {
+			md, _ := rs.GetItems()[0].GetResource().AsMap()["metadata"].(map[string]any)
+			nm, _ = md["name"].(string)
+		}
+		call.extraNames = append(call.extraNames, nm)
+	}
 	if st.err {
+		r.calls = append(r.calls, call)
 		return nil, errString("function failed")
 	}
 	rsp := &fnv1.RunFunctionResponse{Desired: &fnv1.State{Resources: map[string]*fnv1.Resource{}}, Context: req.GetContext()}
+	if st.ctxValue != "" {
+		c, _ := structpb.NewStruct(map[string]any{"from": st.ctxValue})
+		rsp.Context = c
+	}
 	for i, want := range st.desired {
 		if want {
 			res := zzDesiredResource(zzResNames[i])
@@ -243,12 +284,26 @@ func (r *zzRunner) RunFunction(_ context.Context, name string, req *fnv1.RunFunc
 		rsp.Desired.Composite = &fnv1.Resource{Ready: st.xrReady}
 	}
 	rsp.Conditions = st.conds
+	if len(st.reqNames) > 0 {
+		n := st.reqNames[len(st.reqNames)-1]
+		if k < len(st.reqNames) {
+			n = st.reqNames[k]
+		}
+		rsp.Requirements = &fnv1.Requirements{ExtraResources: map[string]*fnv1.ResourceSelector{
+			"extra": {ApiVersion: "example.org/v1", Kind: "Extra", Match: &fnv1.ResourceSelector_MatchName{MatchName: n}},
+		}}
+	}
 	if st.fatal {
-		rsp.Results = append(rsp.Results, &fnv1.Result{Severity: fnv1.Severity_SEVERITY_FATAL, Message: "fatal"})
+		rsp.Results = append(rsp.Results, &fnv1.Result{Severity: fnv1.Severity_SEVERITY_FATAL, Message: "fatal " + name})
 	}
 	if st.warning {
-		rsp.Results = append(rsp.Results, &fnv1.Result{Severity: fnv1.Severity_SEVERITY_WARNING, Message: "warning"})
+		rsp.Results = append(rsp.Results, &fnv1.Result{Severity: fnv1.Severity_SEVERITY_WARNING, Message: "warning " + name})
 	}
+	if st.normal {
+		rsp.Results = append(rsp.Results, &fnv1.Result{Severity: fnv1.Severity_SEVERITY_NORMAL, Message: "normal " + name})
+	}
+	call.rsp = rsp
+	r.calls = append(r.calls, call)
 	return rsp, nil
 }
 
